@@ -14,12 +14,14 @@ OddFact(k) == IF k <= 1 THEN 1 ELSE k * OddFact(k - 2)      \* k!! for odd k
 DepthOf(V, n) == Cardinality(V.anc[n]) - 1
 InnerNbs(V, n) == Cardinality({m \in Inner(V) : m # n /\ (V.par[m] = n \/ (n # V.root /\ V.par[n] = m))})
 
+\* the star generator and its variants on given names (StarTreeFromName, StarTreeFromTree)
+StarGens == {"star", "starnames", "startree"}
 ShapeOK(V, args) ==
   CASE args.gen = "caterpillar" -> \A n \in Inner(V) : InnerNbs(V, n) <= 2
     [] args.gen = "balanced" ->
          IF args.rooted THEN \A t \in V.tips : DepthOf(V, t) = args.n
          ELSE \E x \in RootKids(V) : \A t \in V.tips : DepthOf(V, t) = IF x \in V.anc[t] THEN args.n ELSE args.n - 1
-    [] args.gen = "star" -> Inner(V) = {V.root}
+    [] args.gen \in StarGens -> Inner(V) = {V.root}
     [] OTHER -> TRUE
 
 \* res.len4[e] : branch lengths in 10^-4 units (NIL4 when absent); res.ntips = number of tips requested
@@ -30,10 +32,11 @@ F_Generator(T, args, res) ==
                N == res.ntips
            IN  Fail("GeneratedTipCount", Cardinality(V.tips) = N /\ UniqueNames(V) /\ \A t \in V.tips : V.nm[t] # "")
                \cup Fail("GeneratedBinaryAndRootedness",
-                         IF args.gen = "star" THEN RootDeg(V) = N
+                         IF args.gen \in StarGens THEN RootDeg(V) = N
                          ELSE Binary(V) /\ RootDeg(V) = (IF args.rooted THEN 2 ELSE 3))
                \cup Fail("GeneratedLengths", \A e \in EdgeIds(T) : res.len4[e] >= 0)
                \cup Fail("GeneratedShape", ShapeOK(V, args))
+               \cup (IF "names" \in DOMAIN res THEN Fail("GeneratedOnTheGivenNames", V.names = SeqRange(res.names)) ELSE {})
                \cup F_IndexFresh(T, V, T.idx, T.rank)
                \cup F_Enum(T, V, T.enum)
 
